@@ -4,6 +4,7 @@
 package main
 
 import (
+	"bytes"
 	"context"
 	"encoding/hex"
 	"encoding/json"
@@ -193,6 +194,15 @@ func HThrift(ctx erpc.CallCtx, arg *wire.TStruct) (*wire.TStruct, *erpc.Status) 
 func HRaw(ctx erpc.CallCtx, arg *[]byte) ([]byte, *erpc.Status) {
 	ctx.SetBodyCodec(codec.ID_JSON)
 	return append([]byte(nil), (*arg)...), nil
+}
+
+// HBig answers a small request with a large, highly compressible reply (the request names the size).
+func HBig(ctx erpc.CallCtx, arg *[]byte) ([]byte, *erpc.Status) {
+	n, _ := strconv.Atoi(string(*arg))
+	o := getObs(string(ctx.PeekMeta("Bigid")))
+	atomic.AddInt32(&o.entered, 1)
+	atomic.AddInt32(&o.completed, 1)
+	return bytes.Repeat([]byte{'0'}, n), nil
 }
 
 // HRawForm answers with the request bytes as a form-encoded reply.
@@ -437,6 +447,7 @@ func main() {
 		}
 		routes["raw-reply"] = srv.RouteCallFunc(HRaw)
 		routes["raw-reply-form"] = srv.RouteCallFunc(HRawForm)
+		routes["big-reply"] = srv.RouteCallFunc(HBig)
 		var link *bed.Link
 		var err error
 		if t.ws {
@@ -462,11 +473,60 @@ func main() {
 			core.Add("reconnects", 1)
 		}
 		ks := kindsFor(t)
-		modes := []string{"reply-form", "reply-bytes", "status", "ok", "mismatch", "panic-string", "panic-error", "panic-status", "panic-nil", "unknown-route", "bad-body", "veto", "closed", "ctx-dead"}
+		modes := []string{"reply-refused-by-filter", "reply-form", "reply-bytes", "status", "ok", "mismatch", "panic-string", "panic-error", "panic-status", "panic-nil", "unknown-route", "bad-body", "veto", "closed", "ctx-dead"}
 		for _, mode := range modes {
 			nk := perMode
 			if mode == "reply-form" {
 				nk = 42
+			}
+			if mode == "reply-refused-by-filter" {
+				// the handler's reply travels through the caller's gzip pipe and inflates beyond the caller's unpack limit
+				// (= message size limit): the caller's filter refuses it. The call completes - not OK - on a connection that
+				// stays up; it must not stay pending. The limit is process-global: set for these calls only.
+				if !t.p.Pipe || t.p.Struct {
+					continue
+				}
+				for k := 0; k < 3; k++ {
+					caseNo++
+					id := fmt.Sprintf("b%d.%s.%d", *batch, t.name, caseNo)
+					pipe := []string{"z", "g"}[k%2]
+					desc := map[string]interface{}{"class": mode, "transport": t.name, "kind": "bytes", "value_class": "pipe=" + pipe}
+					core.Add("evaluations", 1)
+					core.Distinct("nontrivial", t.name+"/"+mode+"/bytes/pipe="+pipe)
+					core.Begin(id, desc)
+					reconnect()
+					const lim = 64 << 10
+					erpc.SetReadLimit(lim)
+					var res []byte
+					c := link.A.AsyncCall(routes["big-reply"], []byte(strconv.Itoa(lim*3+k)), &res, make(chan erpc.CallCmd, 1),
+						erpc.WithBodyCodec(codec.ID_PLAIN), erpc.WithXferPipe([]byte(pipe)...), erpc.WithSetMeta("Bigid", id))
+					done := waitDone(c)
+					erpc.SetReadLimit(0)
+					o := getObs(id)
+					switch {
+					case !done && atomic.LoadInt32(&o.completed) > 0:
+						// whether the caller's session stayed up or dropped the connection over the refused reply: nothing runs any
+						// more and the caller has neither OK nor any status
+						core.Result(core.R{ID: id, Verdict: core.Violated, FP: fmt.Sprintf("C04/%s/%s/bytes/caller-never-sees-a-status", t.name, mode),
+							What: fmt.Sprintf("%s %s: the handler answered, the caller's filter refused the reply, and the call is incomplete at quiescence (caller session healthy: %v, server session healthy: %v)", t.name, mode, link.A.Health(), link.B.Health()), Desc: desc})
+						link.CA.Sever(false)
+						bed.WaitUntil(5*time.Second, func() bool { return !link.A.Health() })
+						link.A.Close()
+					case !done:
+						core.Result(core.R{ID: id, Verdict: core.Inconclusive, What: fmt.Sprintf("call incomplete at quiescence (caller healthy %v, server healthy %v, handler completed %d)", link.A.Health(), link.B.Health(), atomic.LoadInt32(&o.completed)), Desc: desc})
+						link.CA.Sever(false)
+						bed.WaitUntil(5*time.Second, func() bool { return !link.A.Health() })
+						link.A.Close()
+					case c.StatusOK() && len(res) != lim*3+k:
+						core.Result(core.R{ID: id, Verdict: core.Violated, FP: fmt.Sprintf("C04/%s/%s/bytes/undecodable-reply-reported-ok", t.name, mode),
+							What: fmt.Sprintf("%s %s: the caller sees OK with a result of %d bytes, the handler returned %d", t.name, mode, len(res), lim*3+k), Desc: desc})
+					default:
+						// refused (not OK), or - where the transport's own framing lets the reply through - delivered in full
+						core.Add("replies_refused_by_the_callers_filter", 1)
+						core.Result(core.R{ID: id, Verdict: core.Held})
+					}
+				}
+				continue
 			}
 			for k := 0; k < nk; k++ {
 				caseNo++
